@@ -825,6 +825,58 @@ func c17ConcurrentDist(out *verifkit.Out, r *verifkit.Rand, n int) {
 	}
 }
 
+// c17FirstRefresh: a fresh distributor whose first RefreshRoots runs concurrently with submissions of a chain that every
+// log accepts. Whatever the interleaving — root data still empty (fallback: no log has root data, all are tried), or
+// already complete (the chain verifies) — enough logs answer successfully, so the call has to succeed.
+func c17FirstRefresh(out *verifkit.Out, n int) {
+	pki := c17PKI()
+	nb, na := time.Date(2023, 1, 1, 0, 0, 0, 0, time.UTC), time.Date(2023, 12, 1, 0, 0, 0, 0, time.UTC)
+	chain := [][]byte{c17Leaf(pki[1], nb, na, false), pki[1].der}
+	for it := 0; it < n; it++ {
+		var logs []*c17DLog
+		for i := 1; i <= 4; i++ {
+			logs = append(logs, &c17DLog{id: i, url: c17LogURL(i), google: i <= 2, status: 3, roots: []int{0, 1, 2},
+				script: c17Script{time.Duration(i) * time.Millisecond, c17OK}})
+		}
+		const callers = 4
+		errs := make([]error, callers)
+		panics := make([]string, callers)
+		c17Bubble(func() {
+			sub := &c17Submitter{start: time.Now(), scripts: map[string]c17Script{}}
+			for _, l := range logs {
+				sub.scripts[l.url] = l.script
+			}
+			d, err := NewDistributor(c17LogList(logs), ctpolicy.ChromeCTPolicy{}, c17Builder(logs, sub), nil)
+			if err != nil {
+				return
+			}
+			var wg sync.WaitGroup
+			wg.Add(1)
+			go func() { defer wg.Done(); d.RefreshRoots(context.Background()) }()
+			for k := 0; k < callers; k++ {
+				wg.Add(1)
+				go func(k int) {
+					defer wg.Done()
+					ctx, cancel := context.WithTimeout(context.Background(), time.Hour)
+					defer cancel()
+					panics[k] = verifkit.Guard(func() { _, errs[k] = d.AddChain(ctx, chain, false) })
+				}(k)
+			}
+			wg.Wait()
+		})
+		for k := 0; k < callers; k++ {
+			if panics[k] != "" {
+				out.Fail("firstrefresh/panic", panics[k])
+			} else if errs[k] != nil {
+				out.Fail(fmt.Sprintf("firstrefresh iteration=%d caller=%d", it, k),
+					"fresh Distributor (4 usable logs, 2 Google, all accept roots 0,1,2, all answer within 4 ms), chain rooted in root 1, 12-month leaf, Chrome policy; AddChain started together with the first RefreshRoots returned: "+errs[k].Error())
+			} else {
+				out.Count("class:firstrefresh-success")
+			}
+		}
+	}
+}
+
 func TestVerifC17Dist(t *testing.T) {
 	out := verifkit.Open()
 	defer out.Close()
@@ -833,5 +885,6 @@ func TestVerifC17Dist(t *testing.T) {
 	c17CompatCases(out, r.Fork(), verifkit.N(400, 10000))
 	c17DistCases(out, r.Fork(), verifkit.N(250, 5000))
 	c17ConcurrentDist(out, r.Fork(), verifkit.N(20, 300))
+	c17FirstRefresh(out, verifkit.N(150, 3000))
 	c17LockProbes(out)
 }
